@@ -33,6 +33,11 @@ package sqlc
 //             and by 20 s at every command that reaches a server: a breaker window never holds more than the
 //             requests in flight (at most 5, the cleaner's workers: below the breaker's protection threshold),
 //             so the breaker — whose drops are random — never drops.
+//   instances (round 4) section cfg `inst=<kind>/<exp>/<nf>,...`: SEVERAL CachedConn over the same servers, built by
+//             NewConn (conn), NewNodeConn (node, one server only) or NewConnWithCache over a cache the harness builds
+//             with its own barrier number k (wc<k>), each with its own options. ` i=<n>` sends an op through
+//             instance n; `ctake ... i=a+b` spreads concurrent readers over instances; `insts` prints what the
+//             constructors built (cache.VerifC06Env.Instances: implementation kind, barrier identity per node).
 // After every operation every node's cache is dumped (node/key=value@ttl-ms, sorted).
 
 import (
@@ -49,7 +54,9 @@ import (
 
 	"github.com/zeromicro/go-zero/core/logx"
 	"github.com/zeromicro/go-zero/core/stores/cache"
+	"github.com/zeromicro/go-zero/core/stores/redis"
 	"github.com/zeromicro/go-zero/core/stores/sqlx"
+	"github.com/zeromicro/go-zero/core/syncx"
 	"github.com/zeromicro/go-zero/core/timex"
 	"github.com/zeromicro/go-zero/internal/verifh"
 )
@@ -112,9 +119,36 @@ func TestVerifC06(t *testing.T) {
 		// a fresh cleaner wheel per section: pending retries of one section never leak into the next
 		cleaner := cache.VerifC06SwapCleaner()
 		env, conf := cache.VerifC06NewEnv(cfg.Int("nodes", 1), cfg.Str("type", "node"), cfg.Str("place", "-"))
-		opts := cache.VerifC06Options(cfg.Str("exp", "-"), cfg.Str("nf", "-"))
-		cc := NewConn(nil, conf, opts...)
-		env.Attach(cc.cache)
+		// the instances of the section: several CachedConn over the same cache servers, each built by one of the
+		// real constructors with its own cache.Options (see cache.VerifC06Inst)
+		specs := cache.VerifC06Insts(cfg.Str("inst", "-"), cfg.Str("exp", "-"), cfg.Str("nf", "-"))
+		var ccs []CachedConn
+		var classes []string
+		own := map[string]syncx.SingleFlight{}
+		for _, sp := range specs {
+			opts := cache.VerifC06Options(sp.Exp, sp.Nf)
+			switch sp.Kind {
+			case "conn":
+				ccs = append(ccs, NewConn(nil, conf, opts...))
+			case "node":
+				if len(conf) != 1 {
+					panic("inst kind `node` needs nodes=1")
+				}
+				ccs = append(ccs, NewNodeConn(nil, redis.MustNewRedis(conf[0].RedisConf), opts...))
+			default:
+				b, ok := own[sp.Kind]
+				if !ok {
+					b = syncx.NewSingleFlight()
+					own[sp.Kind] = b
+				}
+				ccs = append(ccs, NewConnWithCache(nil, cache.New(conf, b, stats, sql.ErrNoRows, opts...)))
+			}
+			classes = append(classes, cache.VerifC06Class(sp.Kind))
+		}
+		env.Attach(ccs[0].cache)
+		for _, c := range ccs[1:] {
+			env.AttachMore(c.cache)
+		}
 		key, keysOf, dump := env.Key, env.Keys, env.Dump
 
 		rows := map[int]c06Row{}
@@ -126,7 +160,7 @@ func TestVerifC06(t *testing.T) {
 		// the result token of a read, cross-checked with Cache.IsNotFound (the cache was built with sql.ErrNoRows
 		// as its errNotFound): IsNotFound(err) must hold exactly for the not-found result
 		isNF := func(res string, err error) string {
-			if cc.cache.IsNotFound(err) != (res == "notfound") {
+			if ccs[0].cache.IsNotFound(err) != (res == "notfound") {
 				return "err:IsNotFound-disagrees-with-" + res
 			}
 			return res
@@ -144,7 +178,14 @@ func TestVerifC06(t *testing.T) {
 			queries = 0
 			res := ""
 			how := "order"
+			var cc CachedConn
+			if op[0] != "ctake" {
+				cc = ccs[cache.VerifC06InstOf(op, len(ccs))]
+			}
 			switch op[0] {
+			case "insts":
+				// what the constructors built: implementation kind and barrier identity per instance and node
+				return fmt.Sprintf("ok q=0 cmds=- %s | %s", env.Instances(), dump())
 			case "take":
 				pk := verifh.Atoi(op[1][1:])
 				var v c06Row
@@ -170,24 +211,42 @@ func TestVerifC06(t *testing.T) {
 				pk := verifh.Atoi(op[1][1:])
 				rkey := key(op[1]) // resolved here: the map behind key() is not for concurrent use
 				n := verifh.Atoi(c06Opt(op, "n", "4"))
+				// `i=a+b+c`: reader r goes through instance number (a, b, c)[r mod 3] — readers of ONE key spread
+				// over several CachedConn. Queries in flight are counted per barrier class the constructors promise
+				// (cache.VerifC06Class: every conn / node instance shares the package-wide barrier).
+				var via []int
+				for _, t := range strings.Split(c06Opt(op, "i", "0"), "+") {
+					i := verifh.Atoi(t)
+					if i < 0 || i >= len(ccs) {
+						panic("bad i= in op: " + strings.Join(op, " "))
+					}
+					via = append(via, i)
+				}
+				ncls := map[string]bool{}
+				for _, i := range via {
+					ncls[classes[i]] = true
+				}
 				var mu sync.Mutex
-				inflight, maxInflight, total, started := 0, 0, 0, 0
+				inflight, maxInflight := map[string]int{}, 0
+				total, started := 0, 0
 				results := make([]string, n)
 				var wg sync.WaitGroup
 				for i := 0; i < n; i++ {
 					wg.Add(1)
 					go func(i int) {
 						defer wg.Done()
+						rc := ccs[via[i%len(via)]]
+						cls := classes[via[i%len(via)]]
 						mu.Lock()
 						started++
 						mu.Unlock()
 						var v c06Row
-						err := cc.QueryRowCtx(ctx, &v, rkey, func(ctx context.Context, conn sqlx.SqlConn, v any) error {
+						err := rc.QueryRowCtx(ctx, &v, rkey, func(ctx context.Context, conn sqlx.SqlConn, v any) error {
 							mu.Lock()
-							inflight++
+							inflight[cls]++
 							total++
-							if inflight > maxInflight {
-								maxInflight = inflight
+							if inflight[cls] > maxInflight {
+								maxInflight = inflight[cls]
 							}
 							mu.Unlock()
 							// hold the query until every reader has been launched, then a little longer
@@ -202,7 +261,7 @@ func TestVerifC06(t *testing.T) {
 							}
 							time.Sleep(300 * time.Microsecond)
 							mu.Lock()
-							inflight--
+							inflight[cls]--
 							mu.Unlock()
 							if dbfail {
 								return errC06DB
@@ -226,8 +285,13 @@ func TestVerifC06(t *testing.T) {
 				for _, r := range results {
 					distinct[r] = true
 				}
+				// database queries: one per flight. One barrier class, no fault: exactly one (printed); several
+				// classes: each class loads at most once (1..#classes, `ok`); database fault: every flight
+				// re-queries (1..n, `ok`)
 				qs := strconv.Itoa(total)
 				if dbfail && total >= 1 && total <= n {
+					qs = "ok"
+				} else if !dbfail && len(ncls) > 1 && total >= 1 && total <= len(ncls) {
 					qs = "ok"
 				}
 				cleaner.Sync()
@@ -538,8 +602,30 @@ var c06NXScenario = verifh.Section{Cfg: "exp=20000 nf=3000 stale=report nodes=1 
 	"raw x2 j:2 100000", "qindex x2 c=01", "qindex x2", "exec p2,x2 rm:2", "set p2 r:2:5:2", "take p2", "del p2", "take p2 w=1", "qindex x2 w=1",
 }}
 
+// several CachedConn over the same servers, replayed on every run: what one instance loads the others serve
+// from the cache, what one invalidates is gone for all, retries armed by different instances share the cleaner,
+// each instance writes with ITS options, and concurrent readers spread over the instances built by NewConn /
+// NewNodeConn run one query (`inflight=1`), while an instance with a private barrier (NewConnWithCache) loads
+// on its own.
+var c06InstanceScenarios = []verifh.Section{
+	{Cfg: "inst=conn/20000/3000,node/20000/3000,node/-/0,wc0/7000/1000,wc0/20000/3000,wc1/20000/3000 stale=report nodes=1 type=node place=-", Ops: []string{
+		"insts", "exec p1,x1 put:1:10:1 i=1", "take p1 j=500 i=0", "take p1 i=1", "take p1 i=3", "qindex x1 i=2 j=0", "qindex x1 i=4",
+		"exec p1,x1 put:1:11:1 i=5", "take p1 i=2 j=1000", "take p1 i=0", "take p2 i=3 j=0", "take p2 i=0", "take p3 i=2 j=1000", "take p3 i=1",
+		"exec p1,x1 put:1:12:1 c=1 i=1", "exec p2 put:2:20:2 c=1 i=3", "tick 1 c=0", "take p1 i=4", "take p2 i=5",
+		"del p1,p2,p3 i=2", "ctake p1 n=4 i=0+1", "del p1 i=0", "ctake p1 n=6 i=0+1+2 j=0", "del p1", "ctake p1 n=5 i=1+2 db=1",
+		"del p1", "ctake p1 n=4 i=3+4", "del p1", "ctake p1 n=4 i=0+4 j=500", "del p1", "ctake p1 n=6 i=1+3+5", "ctake p7 n=3 i=0+1+2",
+		"setx p4 r:4:40:4 0 j=0 i=3", "set p5 r:5:50:5 i=2 j=1000", "get p4 i=0", "get p5 i=4",
+	}},
+	{Cfg: "inst=conn/20000/3000,conn/-/-,wc0/1/1,conn/0/-1 stale=report nodes=3 type=cluster place=p1:0,x1:1,p2:2,x2:0", Ops: []string{
+		"insts", "exec p1,x1 put:1:10:1 i=1", "exec p2,x2 put:2:20:2 i=2", "qindex x1 i=0 j=500", "qindex x2 i=1 j=0", "take p1 i=2", "take p2 i=3",
+		"exec p1,x1,p2,x2 put:1:11:2 c=1/0/1 i=3", "take p1 i=0", "qindex x2 i=1", "tick 1 c=000", "take p2 i=2 j=1000", "qindex x2 i=0",
+		"del p1,p2 i=2", "ctake p1 n=6 i=0+1+3", "ctake p2 n=4 i=1+2", "take p3 i=2 j=0", "take p3 i=3",
+	}},
+}
+
 func c06Gen(r *verifh.Rng) []verifh.Section {
 	secs := []verifh.Section{c06StaleScenario, c06ClusterScenario, c06NXScenario}
+	secs = append(secs, c06InstanceScenarios...)
 	secs = append(secs, c06OptionScenarios()...)
 	nsec := verifh.Scale(44, 400)
 	offE, offN := r.Intn(100), r.Intn(100)
@@ -592,17 +678,37 @@ func c06Gen(r *verifh.Rng) []verifh.Section {
 			}
 			return string(b)
 		}
-		var ops []string
+		// instances: several CachedConn over the same servers, built by NewConn / NewNodeConn / NewConnWithCache,
+		// each with its own options; every operation goes through one of them (` i=<n>`), concurrent readers
+		// are spread over a subset (` i=a+b`)
+		inst, ni := cache.VerifC06GenInsts(r.Intn, nodes, exp, nf)
+		iv := func() string {
+			if ni == 1 {
+				return ""
+			}
+			return fmt.Sprintf(" i=%d", r.Intn(ni))
+		}
+		ivs := func() string {
+			if ni == 1 {
+				return ""
+			}
+			l := []string{strconv.Itoa(r.Intn(ni))}
+			for k := r.Intn(3); k > 0; k-- {
+				l = append(l, strconv.Itoa(r.Intn(ni)))
+			}
+			return " i=" + strings.Join(l, "+")
+		}
+		ops := []string{"insts"}
 		nops := r.Range(10, verifh.Scale(60, 90))
 		val := 0
 		for len(ops) < nops {
 			switch x := r.Intn(100); {
 			case x < 26:
-				ops = append(ops, fmt.Sprintf("take p%d%s%s%s", pkey(), c06J(r), c06Mask(r, 3), c06DBFault(r)))
+				ops = append(ops, fmt.Sprintf("take p%d%s%s%s", pkey(), c06J(r), c06Mask(r, 3), c06DBFault(r))+iv())
 			case x < 40:
-				ops = append(ops, fmt.Sprintf("qindex x%d%s%s%s", pkey(), c06J(r), c06Mask(r, 4), c06DBFault(r)))
-			case x < 42:
-				ops = append(ops, fmt.Sprintf("ctake p%d n=%d%s%s", pkey(), r.Range(2, 6), c06J(r), c06DBFault(r)))
+				ops = append(ops, fmt.Sprintf("qindex x%d%s%s%s", pkey(), c06J(r), c06Mask(r, 4), c06DBFault(r))+iv())
+			case x < 43:
+				ops = append(ops, fmt.Sprintf("ctake p%d n=%d%s%s", pkey(), r.Range(2, 6), c06J(r), c06DBFault(r))+ivs())
 			case x < 62:
 				val++
 				w := fmt.Sprintf("put:%d:%d:%d", pkey(), val, pkey())
@@ -644,7 +750,7 @@ func c06Gen(r *verifh.Rng) []verifh.Section {
 				if len(keys) > 0 {
 					ks = strings.Join(keys, ",")
 				}
-				ops = append(ops, fmt.Sprintf("exec %s %s%s%s", ks, w, c06DelMask(r, nodes, 4), dbf))
+				ops = append(ops, fmt.Sprintf("exec %s %s%s%s", ks, w, c06DelMask(r, nodes, 4), dbf)+iv())
 			case x < 69:
 				var keys []string
 				for k := r.Pick(1, 1, 2, 2, 3, 4); k > 0; k-- {
@@ -654,7 +760,7 @@ func c06Gen(r *verifh.Rng) []verifh.Section {
 				if r.Chance(1, 12) {
 					ks = "-"
 				}
-				ops = append(ops, fmt.Sprintf("del %s%s", ks, c06DelMask(r, nodes, 4)))
+				ops = append(ops, fmt.Sprintf("del %s%s", ks, c06DelMask(r, nodes, 4))+iv())
 			case x < 74:
 				pk := pkey()
 				key, v := fmt.Sprintf("p%d", pk), fmt.Sprintf("r:%d:%d:%d", pk, 900+r.Intn(5), pkey())
@@ -662,17 +768,17 @@ func c06Gen(r *verifh.Rng) []verifh.Section {
 					key, v = fmt.Sprintf("x%d", pkey()), fmt.Sprintf("k:%d", pk)
 				}
 				if r.Bool() {
-					ops = append(ops, fmt.Sprintf("set %s %s%s%s", key, v, c06J(r), c06Mask(r, 1)))
+					ops = append(ops, fmt.Sprintf("set %s %s%s%s", key, v, c06J(r), c06Mask(r, 1))+iv())
 				} else {
 					ops = append(ops, fmt.Sprintf("setx %s %s %d%s%s", key, v,
-						r.Pick(0, -1, -5000, 1, 999, 1000, 1001, 1500, 30000), c06J(r), c06Mask(r, 1)))
+						r.Pick(0, -1, -5000, 1, 999, 1000, 1001, 1500, 30000), c06J(r), c06Mask(r, 1))+iv())
 				}
 			case x < 79:
 				key := fmt.Sprintf("p%d", pkey())
 				if r.Chance(1, 3) {
 					key = fmt.Sprintf("x%d", pkey())
 				}
-				ops = append(ops, fmt.Sprintf("get %s%s", key, c06Mask(r, 2)))
+				ops = append(ops, fmt.Sprintf("get %s%s", key, c06Mask(r, 2))+iv())
 			case x < 81:
 				key := fmt.Sprintf("p%d", pkey())
 				if r.Chance(1, 3) {
@@ -693,7 +799,7 @@ func c06Gen(r *verifh.Rng) []verifh.Section {
 				ops = append(ops, fmt.Sprintf("tick %d c=%s", nt, downBits()))
 			}
 		}
-		secs = append(secs, verifh.Section{Cfg: fmt.Sprintf("exp=%s nf=%s stale=report nodes=%d type=%s place=%s", exp, nf, nodes, typ, place), Ops: ops})
+		secs = append(secs, verifh.Section{Cfg: fmt.Sprintf("inst=%s stale=report nodes=%d type=%s place=%s", inst, nodes, typ, place), Ops: ops})
 	}
 	return secs
 }
